@@ -136,3 +136,7 @@ Print Assumptions C17_rational_zero_tests_exact.
 Theorem C17_no_zero_divisors : forall p q, Inv p -> Inv q -> fzero (pmul p q) -> fzero p \/ fzero q.
 Proof. exact pmul_integral. Qed.
 Print Assumptions C17_no_zero_divisors.
+
+(* ---- source pins: the functions whose hand-written model carries the theorems above are still, textually (after
+   ast normalisation), the functions the model was validated against; an edit breaks Bridge/Pins_C17.v ---- *)
+From KV Require Bridge.Pins_C17.
